@@ -1942,6 +1942,9 @@ struct Gen {
     round: u64,
     rounds: u64,
     left: u64,
+    /// marathon history (1 case in 80): ~260 rounds with 0–1 operations in between, so that the epoch ids pass 255 —
+    /// seed C09-M (epoch keys stored little-endian: the 256th epoch sorts below every earlier one)
+    marathon: bool,
     phase: u8, // 0 = in-round ops, 1 = newepoch due
     setup: Vec<String>,
     scen_round: u64, // last round in which the failing-aggregation scenario was injected
@@ -3743,13 +3746,15 @@ impl Engine for Feeflow {
             let vfs: Vec<u64> = (0..3).map(|_| *rng.pick(&pfs)).collect();
             let growth = *rng.pick(&[0u128, 1_000_000_000, 64_000_000_000_000, 1_000_000_000_000_000]);
             let extra = rng.range(0, 4);
+            let marathon = rng.chance(1, 80);
             self.g = Gen {
                 t: T0,
                 h: 1,
                 genesis,
                 round: 0,
-                rounds: grace + 2 + extra,
-                left: rng.range(2, 8),
+                rounds: if marathon { 257 + grace + extra } else { grace + 2 + extra },
+                left: if marathon { 1 } else { rng.range(2, 8) },
+                marathon,
                 phase: 0,
                 setup: vec![],
                 scen_round: u64::MAX,
@@ -4115,7 +4120,7 @@ impl Feeflow {
             self.g.inloan_n = u64::MAX;
             if rng.chance(1, 2) {
                 self.g.round += 1;
-                self.g.left = rng.range(3, 10);
+                self.g.left = if self.g.marathon { 1 + rng.below(2) } else { rng.range(3, 10) };
                 self.g.phase = 0;
             }
         }
@@ -4211,7 +4216,7 @@ impl Feeflow {
                 }
             }
             self.g.round += 1;
-            self.g.left = rng.range(3, 10);
+            self.g.left = if self.g.marathon { 1 + rng.below(2) } else { rng.range(3, 10) };
             self.g.phase = 0;
             let who = match rng.below(4) {
                 0 => "admin".to_string(),
@@ -4248,7 +4253,7 @@ impl Feeflow {
             }
             return self.g.setup.pop();
         }
-        self.g.left -= 1;
+        self.g.left = self.g.left.saturating_sub(1);
         // ops inside a round: keep within 20h of the nominal start so that bonding stays allowed
         let step = *rng.pick(&[0u64, 1_000_000_000, 60_000_000_000, 1_800_000_000_000, 3_600_000_000_000]);
         let cap = if n_epochs == 0 { self.g.genesis - 2 } else { last.eps[0].start + 20 * 3_600_000_000_000 };
